@@ -76,7 +76,7 @@ fn weights(p: Profile, rng: &mut Rng) -> Vec<(K, u32)> {
     use K::*;
     let base: Vec<(K, u32)> = match p {
         Profile::Mixed => vec![
-            (Pin, 8), (Unpin, 6), (Reactivate, 1), (ReactAfter, 1), (Flush, 3),
+            (Pin, 8), (Unpin, 6), (Reactivate, 1), (ReactAfter, 1), (PanicCs, 1), (Flush, 3),
             (New, 10), (NewMany, 1), (NewIter, 1), (Clone, 5), (DropRc, 8), (Finalize, 2), (Downgrade, 3), (WeakMany, 1), (SnapOf, 2), (RcTag, 1), (DerefRc, 2),
             (Counted, 4), (SnapDown, 1), (SnapTag, 1), (DerefSnap, 4),
             (Load, 10), (Store, 8), (Swap, 4), (Cas, 5), (CasTag, 1),
@@ -104,13 +104,13 @@ fn weights(p: Profile, rng: &mut Rng) -> Vec<(K, u32)> {
             (Load, 3), (Store, 5), (Swap, 3), (DerefRc, 2), (StoreW, 2),
         ],
         Profile::Ebr => vec![
-            (Pin, 10), (Unpin, 9), (Reactivate, 3), (ReactAfter, 3), (Flush, 6), (Defer, 14), (TryAdvance, 4), (Collect, 2), (New, 2), (DropRc, 2), (Store, 1),
+            (Pin, 10), (Unpin, 9), (Reactivate, 3), (ReactAfter, 3), (PanicCs, 2), (Flush, 6), (Defer, 14), (TryAdvance, 4), (Collect, 2), (New, 2), (DropRc, 2), (Store, 1),
         ],
         Profile::Guards => vec![
-            (Pin, 12), (Unpin, 10), (Reactivate, 8), (ReactAfter, 8), (Flush, 4), (Defer, 3), (New, 3), (DropRc, 3), (Store, 2), (Load, 2), (TryAdvance, 1),
+            (Pin, 12), (Unpin, 10), (Reactivate, 8), (ReactAfter, 8), (PanicCs, 2), (Flush, 4), (Defer, 3), (New, 3), (DropRc, 3), (Store, 2), (Load, 2), (TryAdvance, 1),
         ],
         Profile::Tls => vec![
-            (Pin, 6), (Unpin, 4), (Flush, 3), (Reactivate, 2), (ReactAfter, 2), (Defer, 4), (TryAdvance, 1), (New, 8), (Clone, 2), (DropRc, 3), (Downgrade, 2), (DropW, 1), (Store, 5), (Load, 3), (Swap, 2), (Upgrade, 1), (StoreW, 1),
+            (Pin, 6), (Unpin, 4), (Flush, 3), (Reactivate, 2), (ReactAfter, 2), (PanicCs, 1), (Defer, 4), (TryAdvance, 1), (New, 8), (Clone, 2), (DropRc, 3), (Downgrade, 2), (DropW, 1), (Store, 5), (Load, 3), (Swap, 2), (Upgrade, 1), (StoreW, 1),
         ],
     };
     // swarm: drop a random subset of the optional kinds, jitter the rest
@@ -192,12 +192,18 @@ fn gen_ops_from(rng: &mut Rng, p: Profile, n: usize, roots: u32, wroots: u32, mu
                 op(K::ReactAfter, g as u32, rng.below(4) as u32, 0, 0)
             }),
             K::Flush => occ.live_guard(rng).map(|g| op(K::Flush, g as u32, 0, 0, 0)),
+            K::PanicCs => Some(op(K::PanicCs, rng.below(3) as u32, rng.below(10) as u32, 0, 0)),
             K::New => Occ::pick(rng, &occ.rc, false).map(|d| {
                 let extra = if rng.chance(0.2) { Occ::pick(rng, &occ.rc, true).map(|x| x as u32).unwrap_or(NONE_SLOT) } else { NONE_SLOT };
                 // a field initialised through one of the conversion impls instead of the plain-Rc field
                 let conv = if extra != NONE_SLOT && rng.chance(0.4) { 1 + rng.below(4) as u32 } else { 0 };
                 occ.rc[d] = true;
-                op(K::New, d as u32, extra, 0, conv)
+                // or: weak field filled from a Weak slot (get_mut on the private node / From<Weak>)
+                let from_weak = if conv == 0 && rng.chance(0.08) { Occ::pick(rng, &occ.weak, true) } else { None };
+                match from_weak {
+                    Some(w) => op(K::New, d as u32, w as u32, 0, 5 + rng.below(2) as u32),
+                    None => op(K::New, d as u32, extra, 0, conv),
+                }
             }),
             K::NewMany => {
                 let n = rng.below(5) as u32;
@@ -212,8 +218,8 @@ fn gen_ops_from(rng: &mut Rng, p: Profile, n: usize, roots: u32, wroots: u32, mu
                 Some(op(K::NewMany, n, 0, 0, 0))
             }
             K::NewIter => {
-                let ci = rng.below(5) as u32;
-                let cnt = [0usize, 1, 2, 3, 5][ci as usize];
+                let ci = rng.below(7) as u32;
+                let cnt = [0usize, 1, 2, 3, 5, 8, 17][ci as usize];
                 let take = rng.below(cnt as u64 + 2) as usize;
                 let mut left = take.min(cnt);
                 for i in 0..NRC {
@@ -226,7 +232,9 @@ fn gen_ops_from(rng: &mut Rng, p: Profile, n: usize, roots: u32, wroots: u32, mu
                     Some(g) if rng.chance(0.5) => (1, g as u32),
                     _ => (0, 0),
                 };
-                Some(op(K::NewIter, ci, take as u32, abort, g))
+                // bits 1-2: nth(1) / nth(count) / step_by(2) over the shares not taken one by one
+                let skip = if rng.chance(0.35) { 1 + rng.below(3) as u32 } else { 0 };
+                Some(op(K::NewIter, ci, take as u32, abort | (skip << 1), g))
             }
             K::Clone => match (Occ::pick(rng, &occ.rc, true), Occ::pick(rng, &occ.rc, false)) {
                 (Some(s), Some(d)) => {
@@ -256,8 +264,8 @@ fn gen_ops_from(rng: &mut Rng, p: Profile, n: usize, roots: u32, wroots: u32, mu
                 _ => None,
             },
             K::WeakMany => Occ::pick(rng, &occ.rc, true).map(|s| {
-                let n = rng.below(4) as u32;
-                let mut left = n;
+                let n = rng.below(7) as u32;
+                let mut left = [0u32, 1, 2, 3, 8, 9, 16][n as usize];
                 for i in 0..NWEAK {
                     if left > 0 && !occ.weak[i] {
                         occ.weak[i] = true;
@@ -495,6 +503,7 @@ pub fn swarm_cfg(rng: &mut Rng, cfg: &mut RunCfg, nthreads: usize, allow_stall: 
         _ => 0,
     };
     cfg.align = if rng.chance(0.3) { 32 } else { 8 };
+    cfg.ord_mode = if rng.chance(0.5) { 0 } else { 1 + rng.below(3) as u32 };
 }
 
 /// Thorough tier: larger programs, more threads, bigger structures (set once per process by
